@@ -182,6 +182,8 @@ CHANGES = {
     "grout": ({"grout": [2.2, 3500000.0]}, lambda m: m.set_grout(conductivity=2.2, rho_cp=3500000.0)),
     "loads": ({"load": "balanced"}, lambda m: m.set_ground_loads_from_hourly_list(list(physics.loads("balanced")))),
     "limits": ({"max_eft": 32.0, "min_eft": 6.5}, lambda m: m.set_simulation_parameters(num_months=24, max_eft=32.0, min_eft=6.5, max_height=135.0, min_height=60.0)),
+    "to_nearsquare": ({"method": "nearsquare"}, lambda m: scenarios.set_geometry(m, "nearsquare")),
+    "to_bizoned": ({"method": "bizoned"}, lambda m: scenarios.set_geometry(m, "bizoned")),
     "horizon": ({"months": 36}, lambda m: m.set_simulation_parameters(num_months=36, max_eft=35.0, min_eft=5.0, max_height=135.0, min_height=60.0)),
 }
 
@@ -200,7 +202,7 @@ def run_study(case, res):
         res["evals"] += 1
         physics.find(m)
     setter(m)
-    set_design(m, cfg)
+    set_design(m, final)
     res["evals"] += 1
     e = physics.find(m)
     if e is not None:
@@ -321,8 +323,23 @@ def new_ghe_one_curve():
     return ghe_factory.make_ghe(coords, pipe="single", H=100.0, loads=[x * 1.0 for x in loadgen.atlanta_like(0.6)], months=12, gfunc=gf, rb=0.075)
 
 
+def new_ghe_library():
+    """a GHE whose long-time family was taken from a library of other heights (48 / 96 / 192 m) than the sizing window's (60 / 97.5 / 135 m)"""
+    from vf import loadgen
+
+    coords = [(i * 6.0, j * 6.0) for i in range(2) for j in range(2)]
+    return ghe_factory.make_ghe(coords, pipe="single", H=100.0, loads=[x * 1.0 for x in loadgen.atlanta_like(0.6)], months=12, hvals=[48.0, 96.0, 192.0])
+
+
+CONFIG_ACTIONS = ("m12", "m24", "cg")
+
+
 def do_action(ghe, a):
     from ghedesigner.enums import TimestepType
+
+    if a == "cg":
+        ghe.compute_g_functions()  # the family is recomputed for the sizing window (what the manager does after a search)
+        return ["recomputed", sorted(float(h) for h in ghe.gFunction.g_lts)]
 
     if a in ("m12", "m24"):
         ghe.sim_params.end_month = int(a[1:])
@@ -352,7 +369,7 @@ _PROTO = {}
 def run_objects(case, res):
     pname = case.get("proto", "multi")
     if pname not in _PROTO:
-        _PROTO[pname] = new_ghe() if pname == "multi" else new_ghe_one_curve()
+        _PROTO[pname] = new_ghe() if pname == "multi" else new_ghe_library() if pname == "library" else new_ghe_one_curve()
         _PROTO[pname + "/fresh"] = {}
     proto = _PROTO[pname]
     freshd = _PROTO[pname + "/fresh"]
@@ -360,12 +377,15 @@ def run_objects(case, res):
         last = seq[-1]
         # the configuration in force at the last call (months), so that the fresh object is configured alike
         months = next((a for a in reversed(seq[:-1]) if a in ("m12", "m24")), None)
-        fkey = (months, last)
+        recomputed = "cg" in seq[:-1]
+        fkey = (months, recomputed, last)
         if fkey not in freshd:
             g = copy.deepcopy(proto)
             try:
                 if months:
                     do_action(g, months)
+                if recomputed:
+                    do_action(g, "cg")
                 freshd[fkey] = ("ok", do_action(g, last))
             except Exception as e:  # noqa: BLE001
                 freshd[fkey] = ("exc", type(e).__name__)
@@ -423,6 +443,8 @@ def main(run: core.Run, only=None):
     sims = ("hyb65", "hyb80", "hour80")
     months = [["m24", a, "m12", b] for a in sims for b in sims] + [["m24", a, b] for a in sims for b in sims] + [["m24", "hour80", "m12", "hour80", "hour80"]]
     ocases += [{"family": "objects", "seqs": months[i:i + 5]} for i in range(0, len(months), 5)]
+    lib = [["hyb80", "cg", "hyb80"], ["cg", "hyb80"], ["hyb120", "cg", "hyb65"], ["size", "cg", "hyb80"], ["hyb80", "cg", "size"], ["hyb65", "hyb120", "cg", "hyb120"]]
+    ocases.append({"family": "objects", "proto": "library", "seqs": lib})
     run.drive(ocases, family="objects")
     hs = histories(3 if quick else 4)
     dcfgs = [{"method": "nearsquare", "pipe": "single"}, {"method": "rowwise", "pipe": "double_parallel", "flow": "system"}]
@@ -438,6 +460,10 @@ def main(run: core.Run, only=None):
     results = run.drive(cases, family="designs", fresh_process=True)
     studies = [{"family": "study", "cfg": cfg, "change": ch, "first_run": fr} for cfg in (dcfgs[:1] if quick else dcfgs[:3])
                for ch in (("borehole", "soil", "loads", "limits") if quick else tuple(CHANGES)) for fr in ((True,) if quick else (True, False))]
+    # the geometry method itself changed between two designs (bi-zoned / polygon-constrained <-> near-square)
+    studies += [{"family": "study", "cfg": {"method": a, "pipe": "single"}, "change": ch, "first_run": fr}
+                for a, ch in ((("bizoned", "to_nearsquare"), ("nearsquare", "to_bizoned")) if quick else (("bizoned", "to_nearsquare"), ("constrained", "to_nearsquare"), ("nearsquare", "to_bizoned"), ("rectangle", "to_bizoned")))
+                for fr in ((False,) if quick else (True, False))]
     run.drive(studies, family="input-change-studies", fresh_process=True, chunksize=1)
     # the reference signature must be the same in every process that computed it
     refs = {}
